@@ -15,4 +15,5 @@ pub mod reqrep;
 pub mod router;
 pub mod rpq;
 pub mod sec;
+pub mod shutdown;
 pub mod trie;
